@@ -1,0 +1,160 @@
+//go:build verif
+
+package concurrent
+
+// Stress stand-in for the worker clauses of C19 (Processor, Map): the scheduler chooses the interleavings, so this
+// explores schedules by repetition only - it is not an enumeration. Only compiled with -tags verif.
+
+import (
+	"fmt"
+	"os"
+	"runtime"
+	"sort"
+	"strconv"
+	"testing"
+	"time"
+)
+
+type verifOp struct {
+	id   int
+	fail bool
+}
+
+func (o verifOp) Operation() (interface{}, error) {
+	if o.fail {
+		return nil, fmt.Errorf("op %d failed", o.id)
+	}
+	return o.id, nil
+}
+
+// verifProcessorRound submits n operations to a fresh processor, drains the results while submitting, closes the
+// queue and waits; it reports anything but "exactly one result per operation, Wait returns, out closed once".
+func verifProcessorRound(threads, buffer, n int, failEvery int) (err error) {
+	queue := make(chan Operator, 1)
+	p := NewProcessor(queue, buffer, threads)
+	seen := make(map[int]int)
+	failed := 0
+	done := make(chan error, 1)
+	go func() {
+		// the consumer: results until the channel is closed
+		for r := range p.out {
+			switch {
+			case r.Err != nil:
+				failed++
+			default:
+				seen[r.Value.(int)]++
+			}
+		}
+		done <- nil
+	}()
+	wantFailed := 0
+	for i := 0; i < n; i++ {
+		f := failEvery > 0 && i%failEvery == failEvery-1
+		if f {
+			wantFailed++
+		}
+		p.Process(verifOp{id: i, fail: f})
+	}
+	p.Close()
+	waited := make(chan struct{})
+	go func() { p.Wait(); close(waited) }()
+	select {
+	case <-waited:
+	case <-time.After(20 * time.Second):
+		return fmt.Errorf("Wait did not return after the queue was closed")
+	}
+	select {
+	case <-done:
+	case <-time.After(20 * time.Second):
+		return fmt.Errorf("the result channel was not closed after all workers exited")
+	}
+	if failed != wantFailed {
+		return fmt.Errorf("%d error results, want %d", failed, wantFailed)
+	}
+	for i := 0; i < n; i++ {
+		f := failEvery > 0 && i%failEvery == failEvery-1
+		if !f && seen[i] != 1 {
+			return fmt.Errorf("operation %d produced %d results", i, seen[i])
+		}
+	}
+	if p.Working() != 0 {
+		return fmt.Errorf("%d workers still counted as working after Wait", p.Working())
+	}
+	return nil
+}
+
+type verifInts []int
+
+func (s verifInts) Operation() (interface{}, error) {
+	sum := 0
+	for _, v := range s {
+		sum += v
+	}
+	return []int{len(s), sum}, nil
+}
+func (s verifInts) Slice(i, j int) Mapper { return s[i:j] }
+func (s verifInts) Len() int              { return len(s) }
+
+// TestVerifBounded_C19_Workers: repeated rounds over thread counts, buffer sizes and loads.
+func TestVerifBounded_C19_Workers(t *testing.T) {
+	seed, _ := strconv.Atoi(os.Getenv("VERIF_SEED"))
+	rounds := 300
+	if os.Getenv("VERIF_TIER") == "thorough" {
+		rounds = 5000
+	}
+	old := runtime.GOMAXPROCS(8)
+	defer runtime.GOMAXPROCS(old)
+	cases, nontrivial, failed := 0, 0, 0
+	for r := 0; r < rounds; r++ {
+		x := r + seed
+		threads, buffer, n, fe := 1+x%6, x%4, (x*7)%23, []int{0, 3, 1}[x%3]
+		cases++
+		if err := verifProcessorRound(threads, buffer, n, fe); err != nil {
+			failed++
+			if failed <= 5 {
+				t.Errorf("round %d (threads %d, buffer %d, %d operations, fail every %d): %v", r, threads, buffer, n, fe, err)
+			}
+			continue
+		}
+		if threads > 1 && n > 0 {
+			nontrivial++
+		}
+	}
+	// Map: one result per chunk, the chunks partition the input
+	for r := 0; r < rounds/3; r++ {
+		x := r + seed
+		n, threads, maxChunk := 1+(x*5)%40, 1+x%5, 1+(x*3)%9
+		set := make(verifInts, n)
+		total := 0
+		for i := range set {
+			set[i] = i + 1
+			total += i + 1
+		}
+		cases++
+		res, err := Map(set, threads, maxChunk)
+		if err != nil {
+			t.Errorf("Map(n=%d, threads=%d, maxChunk=%d): %v", n, threads, maxChunk, err)
+			continue
+		}
+		var lens []int
+		gotLen, gotSum := 0, 0
+		for _, v := range res {
+			p := v.([]int)
+			lens = append(lens, p[0])
+			gotLen += p[0]
+			gotSum += p[1]
+		}
+		sort.Ints(lens)
+		if gotLen != n || gotSum != total {
+			failed++
+			if failed <= 5 {
+				t.Errorf("Map(n=%d, threads=%d, maxChunk=%d): chunks %v cover %d elements summing to %d, want %d and %d", n, threads, maxChunk, lens, gotLen, gotSum, n, total)
+			}
+			continue
+		}
+		if len(res) > 1 {
+			nontrivial++
+		}
+	}
+	fmt.Printf("BOUNDED name=C19.workers cases=%d nontrivial=%d exhaustive=false domain=\"stress, not an enumeration of schedules: %d processor rounds (1..6 workers, buffer 0..3, 0..22 operations, none/every third/all failing) checked for exactly one result per operation, Wait returning and the result channel being closed after Close; %d Map calls (1..40 elements, 1..5 threads, chunk limit 1..9) checked for one result per chunk and chunks partitioning the input; GOMAXPROCS 8\"\n", cases, nontrivial, rounds, rounds/3)
+}
